@@ -1,0 +1,55 @@
+/*
+ * Verification hooks (only active when compiled with -DICLDISCO_PARSEC_VERIF).
+ * They let an external test harness observe / own the interleaving of the
+ * atomic primitives.  Without the define this header is never included and
+ * no hook expands to any code.
+ */
+#ifndef PARSEC_VERIF_HOOKS_H_HAS_BEEN_INCLUDED
+#define PARSEC_VERIF_HOOKS_H_HAS_BEEN_INCLUDED
+
+#if defined(ICLDISCO_PARSEC_VERIF)
+
+#if defined(__cplusplus)
+extern "C" {
+#endif
+
+enum {
+    PARSEC_VERIF_K_MFENCE = 0,
+    PARSEC_VERIF_K_CAS32, PARSEC_VERIF_K_CAS64, PARSEC_VERIF_K_CAS128,
+    PARSEC_VERIF_K_OR32,  PARSEC_VERIF_K_AND32,
+    PARSEC_VERIF_K_OR64,  PARSEC_VERIF_K_AND64,
+    PARSEC_VERIF_K_OR128, PARSEC_VERIF_K_AND128,
+    PARSEC_VERIF_K_ADD32, PARSEC_VERIF_K_ADD64, PARSEC_VERIF_K_ADD128,
+    PARSEC_VERIF_K_UNLOCK,
+    PARSEC_VERIF_K_MAX
+};
+
+enum {
+    PARSEC_VERIF_EV_DATAREPO_RECLAIM = 1,
+    PARSEC_VERIF_EV_TD4C             = 2,
+    PARSEC_VERIF_EV_REMOTE_DEP_SEND  = 3,
+    PARSEC_VERIF_EV_USER             = 100
+};
+
+/* called before every atomic primitive: (kind, address operated on) */
+extern void (*parsec_verif_yield_fn)(int kind, volatile void *addr);
+/* called inside busy-wait loops that spin on plain loads */
+extern void (*parsec_verif_spin_fn)(void);
+/* generic observation point: (event, a, b); a non-zero return asks the
+ * call site to skip its default action where the site documents that */
+extern int  (*parsec_verif_event_fn)(int event, void *a, void *b);
+
+#define PARSEC_VERIF_YIELD(k, a)                                        \
+    do { if( NULL != parsec_verif_yield_fn ) parsec_verif_yield_fn((k), (volatile void*)(a)); } while(0)
+/* statement prefix: "PARSEC_VERIF_SPIN() <existing statement>" */
+#define PARSEC_VERIF_SPIN()                                             \
+    if( NULL != parsec_verif_spin_fn ) parsec_verif_spin_fn(); else
+#define PARSEC_VERIF_EVENT(e, a, b)                                     \
+    ( (NULL != parsec_verif_event_fn) ? parsec_verif_event_fn((e), (void*)(a), (void*)(b)) : 0 )
+
+#if defined(__cplusplus)
+}
+#endif
+
+#endif  /* defined(ICLDISCO_PARSEC_VERIF) */
+#endif  /* PARSEC_VERIF_HOOKS_H_HAS_BEEN_INCLUDED */
